@@ -588,9 +588,12 @@ def rule_g(ctx):
                         isinstance(x.value.func.value, ast.Name):
                     q_name = x.value.func.value.id
             s_name = None
+            from ..astutil import resolve_temp
             for x in walk_local(o.node):
                 if isinstance(x, ast.Assign) and isinstance(x.targets[0], ast.Name) and \
-                        'create_task' in ast.unparse(x.value) and (aio.node.name + '()') in ast.unparse(x.value):
+                        isinstance(x.value, ast.Call) and 'create_task' in ast.unparse(x.value.func) and \
+                        (aio.node.name + '()') in ' '.join(ast.unparse(resolve_temp(o.node, a))
+                                                          for a in x.value.args):
                     s_name = x.targets[0].id
             subs = [n for n in walk_local(o.node) if isinstance(n, ast.Call) and isinstance(n.func, ast.Attribute)
                     and n.func.attr == 'subscribe' and isinstance(n.func.value, ast.Name) and
